@@ -954,6 +954,12 @@ h2_parse_frame_settings (connection * const con, const uint8_t *s, uint32_t len)
              * and then set to 4096 to restore dynamic table use */
             if (v > 4096) v = 4096;
             if (v == h2c->s_header_table_size) break;
+            /* RFC 7541 4.2: change must be signaled to peer HPACK decoder with
+             * dynamic table size update at beginning of next header block;
+             * smallest size since prior header block, and then final size */
+            if (!h2c->hpack_tsz_update || v < h2c->hpack_tsz_min)
+                h2c->hpack_tsz_min = v;
+            h2c->hpack_tsz_update = 1;
             h2c->s_header_table_size = v;
             lshpack_enc_set_max_capacity(&h2c->encoder, v);
             break;
@@ -2380,6 +2386,30 @@ h2_send_hpack (request_st * const r, connection * const con, const char *data, u
 
 __attribute_cold__
 __attribute_noinline__
+static unsigned char *
+h2_send_hpack_tsz_update (const h2con * const h2c, unsigned char *dst)
+{
+    /* RFC 7541 6.3 Dynamic Table Size Update  001xxxxx (5-bit prefix integer)
+     * (sizes are <= 4096; at most 3 bytes each; ls-hpack does not emit these)
+     * (caller clears h2c->hpack_tsz_update once header block is sent) */
+    const uint32_t tsz[2] = { h2c->hpack_tsz_min, h2c->s_header_table_size };
+    for (int i = (tsz[0] == tsz[1]); i < 2; ++i) {
+        uint32_t v = tsz[i];
+        if (v < 31)
+            *dst++ = (unsigned char)(0x20 | v);
+        else {
+            *dst++ = 0x20 | 31;
+            for (v -= 31; v >= 128; v >>= 7)
+                *dst++ = (unsigned char)(0x80 | (v & 0x7f));
+            *dst++ = (unsigned char)v;
+        }
+    }
+    return dst;
+}
+
+
+__attribute_cold__
+__attribute_noinline__
 static void
 h2_log_response_header_lsx(request_st * const r, const lsxpack_header_t * const lsx)
 {
@@ -2475,8 +2505,12 @@ h2_send_headers (request_st * const r, connection * const con)
         }
     }
 
+    if (__builtin_expect( (h2c->hpack_tsz_update), 0))
+        dst = h2_send_hpack_tsz_update(h2c, dst);
+
+    unsigned char * const dst_status = dst;
     dst = lshpack_enc_encode(encoder, dst, dst_end, &lsx);
-    if (dst == (unsigned char *)tb->ptr) {
+    if (dst == dst_status) {
         h2_send_rst_stream(r, con, H2_E_INTERNAL_ERROR);
         return;
     }
@@ -2631,6 +2665,7 @@ h2_send_headers (request_st * const r, connection * const con)
       (r->resp_body_finished && chunkqueue_is_empty(&r->write_queue))
         ? H2_FLAG_END_STREAM
         : 0;
+    h2c->hpack_tsz_update = 0;
     h2_send_hpack(r, con, tb->ptr, dlen, flags);
 }
 
@@ -2673,6 +2708,9 @@ h2_send_headers_block (request_st * const r, connection * const con, const char 
     struct lshpack_enc * const encoder = &h2c->encoder;
     lsxpack_header_t lsx;
 
+    if (__builtin_expect( (h2c->hpack_tsz_update), 0))
+        dst = h2_send_hpack_tsz_update(h2c, dst);
+
     int i = 1;
     if (hdrs[0] == ':') {
         i = 2;
@@ -2685,8 +2723,9 @@ h2_send_headers_block (request_st * const r, connection * const con, const char 
         lsx.name_len = sizeof(":status")-1;
         lsx.val_offset = lsx.name_len + 2;
         lsx.val_len = 3;
+        unsigned char * const dst_in = dst;
         dst = lshpack_enc_encode(encoder, dst, dst_end, &lsx);
-        if (dst == (unsigned char *)tb->ptr) {
+        if (dst == dst_in) {
             h2_send_rst_stream(r, con, H2_E_INTERNAL_ERROR);
             return;
         }
@@ -2730,6 +2769,7 @@ h2_send_headers_block (request_st * const r, connection * const con, const char 
         }
     }
     uint32_t dlen = (uint32_t)((char *)dst - tb->ptr);
+    h2c->hpack_tsz_update = 0;
     h2_send_hpack(r, con, tb->ptr, dlen, flags);
 }
 
